@@ -18,6 +18,7 @@ import Babylon.BQ.Examples
 import Babylon.BQ.TryFailEx
 import Babylon.BQ.PubView
 import Babylon.BQ.WakeView
+import Babylon.BQ.OutstandingEx
 
 namespace Babylon.Properties.C01
 open Babylon.BQ Babylon.Core Babylon.Gen.BQ
@@ -173,6 +174,76 @@ theorem bq_ver16_faithful_holder (c : Cfg) (y : Sys) (h : ReachF c y) (t : Nat) 
 
 /-- the low half of the futex word the code loads is the truncation of the model's untruncated version -/
 theorem bq_word_low16 (s : State) (j : Nat) : v16 (s.word j) = v16 (s.ver j) := v16_word s j
+
+/-! ### `Ver16Faithful` from a bound on concurrency only (Babylon/BQ/Outstanding.lean)
+`ReachO`: executions of the UNRESTRICTED transition system (`Step`, no faithfulness assumed, any length, any total traffic)
+along which `OutstandingBound` holds: every ticket taken and not completed (`held`), and every ticket whose slot a thread is
+about to compare without holding it (`stale`: try_*, timed pop, waker reload), is fewer than 2^15 - 1 = 32767 rounds of the
+ring below its dispenser; such an index is at most one round ahead of it (`ahead`, a fact of the code that `Inv` does not record). -/
+
+/-- **bq_ver16_faithful, ticket-level form.**  In a state satisfying the safety invariant, `OutstandingBound` implies that every
+truncated comparison any thread is about to make is exact (16-bit compare = untruncated compare). -/
+theorem bq_ver16_faithful_outstanding (c : Cfg) (y : Sys) (hI : Inv c y) (hb : OutstandingBound c y.s) :
+    ∀ t, Faithful c y.s t := faithful_of_outstanding hI hb
+
+/-- the version window behind it: slot version and expected version of every pending comparison are < 2^16 apart -/
+theorem bq_outstanding_window (c : Cfg) (y : Sys) (hI : Inv c y) (hb : OutstandingBound c y.s) (t sl E : Nat)
+    (h : (y.s.pc t).cmp c = some (sl, E)) : y.s.ver sl < E + 65536 ∧ E < y.s.ver sl + 65536 :=
+  window_of_outstanding hI hb t sl E h
+
+/-- every execution under the concurrency bound is a faithful execution: all theorems above stated for `ReachF`
+(and those for `GReach` / `G2Reach`, which lift every `ReachF` execution, `bq_try_ghost_total`) apply to it -/
+theorem bq_reach_under_outstanding_bound (c : Cfg) (y : Sys) (h : ReachO c y) : ReachF c y := reachF_of_reachO h
+
+/-- **bq_all_under_outstanding_bound.**  The safety theorems of C01 for unbounded total traffic, under the bound on
+concurrency only: invariant, exclusive callbacks, value, no duplication / invention, conservation and service at quiescence,
+ticket range. -/
+theorem bq_all_under_outstanding_bound (c : Cfg) (y : Sys) (h : ReachO c y) :
+    Inv c y ∧
+    (∀ t u sl, (y.s.pc t).inCb c sl → (y.s.pc u).inCb c sl → t = u) ∧
+    (∀ t sl, (y.s.pc t).inCb c sl → ∃ sd i, (y.s.pc t).held sd i ∧ slotOf c i = sl ∧ y.s.ver sl = expVer c sd i) ∧
+    (∀ i v, y.s.poppedV i = some v → y.s.pushedV i = some v) ∧
+    (∀ n, List.Sublist (poppedUpTo y.s n) (pushedUpTo y.s n)) ∧
+    (∀ i, y.s.pushedV i ≠ none → i < y.s.pushIdx) ∧ (∀ i, y.s.poppedV i ≠ none → i < y.s.popIdx) ∧
+    (Quiescent y → y.s.pushIdx = y.s.popIdx →
+      poppedUpTo y.s y.s.popIdx = pushedUpTo y.s y.s.pushIdx ∧ (poppedUpTo y.s y.s.popIdx).length = y.s.popIdx) ∧
+    (Quiescent y → ∀ sd i, i < y.s.idx sd → y.s.ghostV sd i ≠ none) ∧
+    (∀ t sd i, (y.s.pc t).held sd i → y.start t sd ≤ i ∧ i < y.s.idx sd) := by
+  have hf := reachF_of_reachO h
+  exact ⟨bq_inv c y hf, fun t u sl => bq_exclusive c y hf t u sl, fun t sl => bq_callback_owns_turn c y hf t sl,
+    fun i v => bq_value c y hf i v, fun n => (bq_no_dup_no_invent c y hf n).1, (bq_no_dup_no_invent c y hf 0).2.1,
+    (bq_no_dup_no_invent c y hf 0).2.2, fun hq hbal => bq_conserve c y hf hq hbal,
+    fun hq sd i hi => bq_all_served c y hf hq sd i hi, fun t sd i hh => bq_ticket_ge_start c y hf t sd i hh⟩
+
+/-- **bq_fifo under the concurrency bound** -/
+theorem bq_fifo_under_outstanding_bound (c : Cfg) (y y' : Sys) (hy : ReachO c y) (t : Nat) (sd : Side) (a b : Nat)
+    (ha : a < y.s.idx sd) (hidle : y.s.pc t = .idle)
+    (hlater : Reachable (· = y) (StepO c) y') (hb : (y'.s.pc t).held sd b) : a < b :=
+  bq_fifo c y y' (reachF_of_reachO hy) t sd a b ha hidle (laterF_of_laterO (reachF_of_reachO hy) hlater).1 hb
+
+/-- **the bound is necessary (1): staleness.**  Capacity 1, NO ticket outstanding: a state satisfying the whole safety invariant in
+which a `try_push` that read the push index 0 is about to compare, 32768 = 32767·capacity + 1 tickets have been issued since
+(exactly one more than `OutstandingBound.stale` allows) and the truncated comparison succeeds wrongly (slot version 65536 vs 0).
+So bounding the number of taken-but-uncompleted tickets alone does not give `Ver16Faithful`; the in-flight index reads of
+try_* must be bounded as well. -/
+theorem bq_outstanding_bound_tight_stale :
+    Inv oneCfg staleSys ∧ (∀ t sd i, ¬ (staleSys.s.pc t).held sd i) ∧
+    (staleSys.s.pc 1).watch = some (.push, 0, 0) ∧ staleSys.s.idx .push = 0 + 32767 * oneCfg.cap + 1 ∧
+    ¬ Faithful oneCfg staleSys.s 1 :=
+  ⟨staleSys_inv, staleSys_bound.1, staleSys_bound.2.1, staleSys_bound.2.2, staleSys_unfaithful⟩
+
+/-- **the bound is necessary (2): outstanding tickets.**  Capacity 1, 32769 = 2^15 + 1 blocked pushers holding the tickets
+0 … 32768 (one slot, 32768 rounds apart): the holder of ticket 32768 compares truncated version 0 with truncated expected
+version 65536 % 65536 = 0 and would be admitted while the turn is ticket 0's.  The number of outstanding tickets here is
+2^15 + 1 for ANY capacity if all of them sit on one slot, i.e. the threshold on the *count* of outstanding tickets is 2^15,
+not 2^15·capacity; 2^15·capacity is the threshold on their *span*. -/
+theorem bq_outstanding_bound_needed_held :
+    (∀ t, t ≤ 32768 → (crowdState.pc t).held .push t) ∧ crowdState.idx .push = 32769 ∧
+    ¬ Faithful oneCfg crowdState 32768 :=
+  ⟨crowd_held, rfl, crowd_unfaithful⟩
+
+/-- non-vacuity: a blocking push that has compared its slot version under the bound and reached its callback -/
+example : ∃ y t, ReachO exCfg y ∧ (y.s.pc t).held .push 0 := ⟨ex3, 1, ex3_reachO, rfl, rfl⟩
 
 /-! ### try-failure justification
 Ghost record (Babylon/BQ/TryFail.lean, TryFailN.lean): a product `Sys × ghost` whose steps are exactly the `StepF` steps plus a
